@@ -301,6 +301,7 @@ pub fn exec_op<'tx>(tx: &Tx<'tx>, op: &'tx Op, owned: bool) -> Ret {
 /// next dump, must leave the reader's view alone).  Handles are obtained by name and through the
 /// listing iterators.  Returns the calls that were NOT refused.
 pub fn reader_mutator_attempts(tx: &Tx, want: &BucketM) -> Result<Vec<String>, String> {
+    use jammdb::ToBuckets;
     fn absent(m: &BucketM) -> Vec<u8> {
         let mut n = b"~ro-absent".to_vec();
         while m.items.contains_key(&n) {
@@ -325,6 +326,30 @@ pub fn reader_mutator_attempts(tx: &Tx, want: &BucketM) -> Result<Vec<String>, S
             }
             if b.delete(k.clone()).is_ok() {
                 bad.push(format!("Bucket::delete(existing key) on a handle obtained {}", how));
+            }
+        }
+        if depth < 2 {
+            // handles listed by a range / a cursor that has already yielded an entry, or was sought
+            let mut r = b.range::<std::ops::RangeFull>(..);
+            let _ = r.next();
+            for (n, nb) in r.to_buckets().take(3) {
+                if let Some(Item::Bucket(inner)) = sub.items.get(n.name()) {
+                    attempts(&nb, inner, "from range(..), advanced once, then to_buckets()", 2, bad);
+                }
+            }
+            let mut c = b.cursor();
+            let _ = c.next();
+            for (n, nb) in c.to_buckets().take(3) {
+                if let Some(Item::Bucket(inner)) = sub.items.get(n.name()) {
+                    attempts(&nb, inner, "from cursor(), advanced once, then to_buckets()", 2, bad);
+                }
+            }
+            let mut c2 = b.cursor();
+            c2.seek(Vec::<u8>::new());
+            for (n, nb) in c2.to_buckets().take(3) {
+                if let Some(Item::Bucket(inner)) = sub.items.get(n.name()) {
+                    attempts(&nb, inner, "from cursor() after seek, then to_buckets()", 2, bad);
+                }
             }
         }
         if let Some((n, Item::Bucket(inner))) = sub.items.iter().find(|(_, it)| matches!(it, Item::Bucket(_))) {
@@ -356,6 +381,11 @@ pub fn reader_mutator_attempts(tx: &Tx, want: &BucketM) -> Result<Vec<String>, S
             }
             if tx.delete_bucket(name.clone()).is_ok() {
                 bad.push("Tx::delete_bucket(existing name)".to_string());
+            }
+        }
+        for (name, sub) in want.items.iter().filter_map(|(k, it)| if let Item::Bucket(s) = it { Some((k, s)) } else { None }).skip(1).take(3) {
+            if let Ok(b) = tx.get_bucket(name.clone()) {
+                attempts(&b, sub, "by name", 0, &mut bad);
             }
         }
         bad
